@@ -408,7 +408,12 @@ func NewFork(nodable Nodable, index int, id ForkId) *Fork {
 // a bit more than those on the fork ID - they can't use a slash to
 // separate nested fork components, and they can't contain a '.' character
 // as that would break the journal filename parsing scheme.
-var encodeJournalName = strings.NewReplacer(".", "%2E", "/", "%2F")
+//
+// The '%' character must be encoded as well.  Otherwise the separator
+// between nested fork components is indistinguishable from a '/' that was
+// already percent-encoded as part of a map key, and e.g. the forks for keys
+// ("a/fork_b", "c") and ("a", "b/fork_c") get the same journal name.
+var encodeJournalName = strings.NewReplacer("%", "%25", ".", "%2E", "/", "%2F")
 
 func (self *Fork) updateId(id ForkId) {
 	self.forkId = id
